@@ -26,11 +26,11 @@ COMPONENTS = E1_COMPONENTS
 ASSUMPTIONS = E1_ASSUMPTIONS + [
     "pattern forms: NAME, NAME/, single-component globs, **/NAME[/], absolute paths with optional final-component "
     "glob; relative patterns with an inner slash are not generated (their anchor is not fixed by the statement)"]
-PROBES = ["dir_and_file_share_a_name", "ancestor_named_like_pattern", "two_excluded_siblings_adjacent", "two_excluded_siblings_separated", "root_excluded",
+PROBES = ["ancestor_with_glob_characters", "stdout_mode", "unlistable_excluded_dir", "dir_and_file_share_a_name", "ancestor_named_like_pattern", "two_excluded_siblings_adjacent", "two_excluded_siblings_separated", "root_excluded",
           "dir_emptied_by_exclusion", "abs_pattern", "pattern_from_cli", "pattern_from_sfile",
           "pattern_from_user_config", "excluded_dir_with_content", "nonrecursive", "auto_exclude_off"]
 
-SAFE_LOC = ["w1", "site", "work", "ci", "checkout"]
+SAFE_LOC = ["w1", "site", "work", "ci", "checkout", "work [v2]", "q?x*"]     # incl. names made of glob characters
 
 
 def swarm(rng, tier):
@@ -66,7 +66,9 @@ def strategy(cfg):
                 site.proj = posixpath.join(site.rel, site.proj_name)
             else:
                 cand = None
-        pats = gen.draw_patterns(draw, site, max_patterns=cfg["max_patterns"], allow_abs=cfg["allow_abs"],
+        globby = any(ch in comp for comp in site.loc for ch in "[]*?\\")
+        # an absolute-path pattern would have to escape such characters; written literally it is a different pattern
+        pats = gen.draw_patterns(draw, site, max_patterns=cfg["max_patterns"], allow_abs=cfg["allow_abs"] and not globby,
                                  allow_root=cfg["allow_root"], allow_ancestor_hits=cfg["collide_ancestor"])
         if cand is not None:
             form = draw(st.sampled_from([cand, "**/" + cand]))
@@ -113,6 +115,10 @@ def strategy(cfg):
                 "listing_key": key, "listing_explicit": explicit,
                 "sources": [draw(st.integers(0, 2)) for _ in pats],
                 "rec_src": draw(st.integers(0, 2)),
+                # no -o: pages go to stdout, the exclusion obligations are the same
+                "stdout": draw(st.integers(0, 4)) == 0,
+                # an excluded directory that cannot be listed must not matter: it is never looked into
+                "unlistable_excluded_dir": draw(st.integers(0, 3)) == 0,
             })
         return {"files": files, "proj": site.proj, "out": out, "patterns": pats, "recursive": recursive,
                 "auto_exclude": auto, "variants": variants}
@@ -151,7 +157,7 @@ def variant_setup(spec, var):
         overlay["home/.config/cminx/config.yaml"] = u_text
     for p in by[0]:
         argv += ["-e", p]
-    argv += ["-o", var["output"], var["input"]]
+    argv += (["-o", var["output"]] if not var.get("stdout") else []) + [var["input"]]
     return overlay, argv
 
 
@@ -170,6 +176,8 @@ def evaluate(spec, ctx):
         ch = refs.children(tree)
         matched_any = ig.root_excluded() or any(ig.self_match(r, c is None) for r, c in tree.items())
         anc_hits = ig.ancestor_component_hits()
+        if any(ch in abs_in for ch in "[]*?"):
+            ctx.probes["ancestor_with_glob_characters"] += 1
         if anc_hits:
             ctx.probes["ancestor_named_like_pattern"] += 1
         dnames = {posixpath.basename(r) for r, c in tree.items() if c is None}
@@ -197,17 +205,30 @@ def evaluate(spec, ctx):
                 ctx.probes[("pattern_from_cli", "pattern_from_sfile", "pattern_from_user_config")[s]] += 1
             call = {"cwd": var["cwd"], "argv": argv, "listing_key": var["listing_key"],
                     "listing_explicit": var["listing_explicit"]}
+            if var.get("unlistable_excluded_dir") and walk.pattern_excluded_dirs and not ig.root_excluded():
+                call["faults"] = [{"seam": "scandir", "errno": "EACCES",
+                                   "path": posixpath.join(proj, walk.pattern_excluded_dirs[0])}]
+                ctx.probes["unlistable_excluded_dir"] += 1
             res = core.run_call(base, call)
             ctx.note_call(res)
             ctx.note_case(core.spec_digest([tree, spec["patterns"], var["sources"], var["listing_key"],
                                             var["listing_explicit"], spec["recursive"], spec["auto_exclude"]]),
                           matched_any)
             got = created_under(res, out)
-            seen_sets.append(got)
             where = f"variant {vi}"
+            if res.fired:
+                viols.append(viol("excluded-entry-processed", f"{where}: the excluded directory "
+                                  f"{walk.pattern_excluded_dirs[0]} was listed (it is unreadable here: {res.fired})",
+                                  cause="looked-into-excluded-dir", how="listed"))
             if res.status != 0:
                 viols.append(viol("run-failed", f"{where}: status {res.status} exc {res.exc}"))
                 continue
+            if var.get("stdout"):
+                ctx.probes["stdout_mode"] += 1
+                if res.created or res.changed:
+                    viols.append(viol("run-failed", f"{where}: stdout mode created {res.created[:4]}"))
+            else:
+                seen_sets.append(got)
             # --- per-event invariant: nothing below an excluded directory is listed, no excluded file is opened
             pre = proj + "/"
             for _seq, op, rel, detail, _outc in res.events:
@@ -223,6 +244,12 @@ def evaluate(spec, ctx):
                                       cause=_cause_dir_chain(ig, res, proj, r), how="descended"))
             # --- adjacency probes (only meaningful where two matching siblings exist)
             _adjacency_probes(ctx, ig, res, proj, ch)
+            if var.get("stdout"):
+                if ig.root_excluded() and ".. module::" in res.stdout:
+                    viols.append(viol("excluded-input-produced-output", f"{where}: stdout {res.stdout[:80]!r}"))
+                if viols:
+                    break
+                continue
             # --- post-hoc: page set
             for g in sorted(got):
                 src_dir = posixpath.dirname(g)
@@ -260,7 +287,7 @@ def evaluate(spec, ctx):
                                       f"{where}: created {res.created[:5]} stdout {res.stdout[:80]!r}"))
             if viols:
                 break
-        if not viols and any(s != seen_sets[0] for s in seen_sets):
+        if not viols and seen_sets and any(s != seen_sets[0] for s in seen_sets):
             viols.append(viol("result-depends-on-schedule-or-source",
                               f"output sets differ across variants: {[sorted(s) for s in seen_sets][:3]}"))
     finally:
